@@ -405,6 +405,127 @@ theorem ext_random_terminates (p e : Int) (hp : 2 ≤ p) (hfit : p ≤ 214748364
   unfold extRandomD
   rw [polyRandomD_eq]; exact hf
 
+/-! ### Poly1Dom::random over any coefficient domain -/
+
+/-- the in-place loop overwrites exactly the positions below `i`, with values of the domain -/
+theorem polyFillG_spec (D : CoefDraw) (C : Int → Prop) (hr : ∀ old g, C (D.randomD old g).1) (i : Nat) :
+    ∀ (r : List Int) (g : Int), i ≤ r.length →
+      ∃ low : List Int, (polyFillG D i r g).1 = low ++ r.drop i ∧ low.length = i ∧ ∀ c ∈ low, C c := by
+  induction i with
+  | zero => intro r g _; exact ⟨[], by simp [polyFillG], rfl, by simp⟩
+  | succ i ih =>
+    intro r g h
+    obtain ⟨low, h1, h2, h3⟩ := ih (r.set i (D.randomD (r.getD i 0) g).1) (D.randomD (r.getD i 0) g).2 (by simp only [List.length_set]; omega)
+    refine ⟨low ++ [(D.randomD (r.getD i 0) g).1], ?_, by simp [h2], ?_⟩
+    · simp only [polyFillG]
+      rw [h1, drop_set_self r i _ (by omega)]
+      simp [List.append_assoc]
+    · intro c hc
+      simp only [List.mem_append, List.mem_cons, List.not_mem_nil, or_false] at hc
+      rcases hc with hc | rfl
+      · exact h3 c hc
+      · exact hr _ _
+
+/-- **`Poly1Dom<Domain>::random(g, r, Degree d)` over ANY coefficient domain** whose `random` returns elements of `C` and whose
+    `nonzerorandom` returns non-zero elements of `C`: exactly `d + 1` coefficients in `C` with a non-zero leading one (the empty
+    vector for `d = -∞`), whatever the destination vector held -/
+theorem polyG_degree (D : CoefDraw) (C : Int → Prop) (hr : ∀ old g, C (D.randomD old g).1)
+    (hn : ∀ f old g r, D.nonzeroD f old g = some r → C r.1 ∧ r.1 ≠ 0)
+    (d : Int) (fuel : Nat) (old : List Int) (g : Int) (r : List Int × Int) (h : polyRandomG D d fuel old g = some r) :
+    (d < 0 → r.1 = []) ∧ (0 ≤ d → r.1.length = d.toNat + 1 ∧ (∀ c ∈ r.1, C c) ∧ r.1.getLast? ≠ some 0) := by
+  unfold polyRandomG at h
+  split at h
+  · rename_i hd
+    simp only [Option.some.injEq] at h; subst h
+    exact ⟨fun _ => by simp [vresize], fun h0 => by omega⟩
+  · rename_i hd
+    refine ⟨fun h0 => by omega, fun _ => ?_⟩
+    split at h
+    · simp at h
+    · rename_i lead hlead
+      simp only [Option.some.injEq] at h; subst h
+      have hl := vresize_length old (d.toNat + 1)
+      obtain ⟨low, h1, h2, h3⟩ := polyFillG_spec D C hr d.toNat ((vresize old (d.toNat + 1)).set d.toNat lead.1) lead.2
+        (by simp only [List.length_set]; omega)
+      have hld := hn _ _ _ _ hlead
+      rw [drop_set_self _ d.toNat _ (by omega), drop_length_succ _ d.toNat hl] at h1
+      rw [h1]
+      refine ⟨by simp [h2], ?_, ?_⟩
+      · intro c hc
+        simp only [List.mem_append, List.mem_cons, List.not_mem_nil, or_false] at hc
+        rcases hc with hc | rfl
+        · exact h3 c hc
+        · exact hld.1
+      · simp only [List.getLast?_append, List.getLast?_singleton, Option.some_or, ne_eq, Option.some.injEq]; exact hld.2
+
+/-- the in-place loop only reads the positions it is about to overwrite: two vectors that agree from position `i` on are filled alike -/
+theorem polyFillG_congr (D : CoefDraw) (hr : ∀ old old' g, D.randomD old g = D.randomD old' g) (i : Nat) :
+    ∀ (r r' : List Int) (g : Int), i ≤ r.length → r.length = r'.length → r.drop i = r'.drop i → polyFillG D i r g = polyFillG D i r' g := by
+  induction i with
+  | zero => intro r r' g _ _ h; simp only [List.drop_zero] at h; rw [h]
+  | succ i ih =>
+    intro r r' g h hl hd
+    simp only [polyFillG]
+    rw [hr (r.getD i 0) (r'.getD i 0) g]
+    apply ih
+    · simp only [List.length_set]; omega
+    · simp only [List.length_set]; exact hl
+    · rw [drop_set_self r i _ (by omega), drop_set_self r' i _ (by omega), hd]
+
+/-- **the polynomial draw over any coefficient domain does not depend on what the vector held**, provided the coefficient draws
+    do not depend on their destinations (proved for every class above) -/
+theorem polyG_dest_indep (D : CoefDraw) (hr : ∀ old old' g, D.randomD old g = D.randomD old' g)
+    (hn : ∀ f old old' g, D.nonzeroD f old g = D.nonzeroD f old' g) (d : Int) (fuel : Nat) (old old' : List Int) (g : Int) :
+    polyRandomG D d fuel old g = polyRandomG D d fuel old' g := by
+  unfold polyRandomG
+  split
+  · simp [vresize]
+  · rw [hn fuel ((vresize old (d.toNat + 1)).getD d.toNat 0) ((vresize old' (d.toNat + 1)).getD d.toNat 0) g]
+    cases D.nonzeroD fuel ((vresize old' (d.toNat + 1)).getD d.toNat 0) g with
+    | none => rfl
+    | some lead =>
+      simp only [Option.some.injEq]
+      have hl := vresize_length old (d.toNat + 1)
+      have hl' := vresize_length old' (d.toNat + 1)
+      apply polyFillG_congr D hr
+      · simp only [List.length_set]; omega
+      · simp only [List.length_set]; omega
+      · rw [drop_set_self _ d.toNat _ (by omega), drop_set_self _ d.toNat _ (by omega),
+            drop_length_succ _ d.toNat hl, drop_length_succ _ d.toNat hl']
+
+/-- `Poly1Dom<GFqDom<intN_t>>::random`: exactly `d + 1` table indices in `[0, q)`, the leading one in `[1, q-1]` -/
+theorem poly_gfq_degree (bits : Nat) (q : Int) (hb : 1 ≤ bits) (hq2 : 2 ≤ q) (hq : q < 2 ^ (bits - 1))
+    (d : Int) (fuel : Nat) (old : List Int) (g : Int) (r : List Int × Int) (h : polyRandomG (gfqCoef bits q) d fuel old g = some r) :
+    (d < 0 → r.1 = []) ∧ (0 ≤ d → r.1.length = d.toNat + 1 ∧ (∀ c ∈ r.1, canonical q c = true) ∧ r.1.getLast? ≠ some 0) := by
+  refine polyG_degree (gfqCoef bits q) (fun c => canonical q c = true) ?_ ?_ d fuel old g r h
+  · intro old g
+    simp only [gfqCoef, gfqRandomD_eq]
+    exact (gfq_random_canonical bits q q g hb (by omega) (by omega) hq).2.2
+  · intro f old g r hr
+    simp only [gfqCoef, gfqNonzeroD_eq, Option.some.injEq] at hr
+    subst hr
+    have := gfq_nonzero_range bits q q g hb hq2 (by omega) hq
+    exact ⟨(canonical_iff q _).2 (by omega), by omega⟩
+
+example : (polyRandomG (gfqCoef 32 9) 3 0 [1, 1, 1, 1, 1, 1] 7).isSome = true := by decide
+
+/-- … independent of the destination -/
+theorem poly_gfq_dest_indep (bits : Nat) (q : Int) (d : Int) (fuel : Nat) (old old' : List Int) (g : Int) :
+    polyRandomG (gfqCoef bits q) d fuel old g = polyRandomG (gfqCoef bits q) d fuel old' g :=
+  polyG_dest_indep _ (fun o o' g => by simp only [gfqCoef, gfqRandomD_eq]) (fun f o o' g => by simp only [gfqCoef, gfqNonzeroD_eq]) d fuel old old' g
+
+/-- `Poly1Dom<R>::random` over every `RingDraw` class (floating, balanced, Montgomery, ZRing): coefficients in the class's element set -/
+theorem poly_ring_degree (R : RingDraw) (C : Int → Prop) (hC : InitInto R C)
+    (d : Int) (fuel : Nat) (old : List Int) (g : Int) (r : List Int × Int) (h : polyRandomG (ringCoef R) d fuel old g = some r) :
+    (d < 0 → r.1 = []) ∧ (0 ≤ d → r.1.length = d.toNat + 1 ∧ (∀ c ∈ r.1, C c) ∧ r.1.getLast? ≠ some 0) :=
+  polyG_degree (ringCoef R) C (fun old g => rRandom_in R C hC old g) (fun f old g r hr => rNonzero_spec R C hC f old g r hr) d fuel old g r h
+
+example : (polyRandomG (ringCoef (balRing wrapS32 101)) 3 64 [] 7).isSome = true := by decide
+
+theorem poly_ring_dest_indep (R : RingDraw) (d : Int) (fuel : Nat) (old old' : List Int) (g : Int) :
+    polyRandomG (ringCoef R) d fuel old g = polyRandomG (ringCoef R) d fuel old' g :=
+  polyG_dest_indep _ (fun _ _ _ => rfl) (fun f o o' g => rNonzeroD_dest_indep R f o o' g) d fuel old old' g
+
 /-! ### QField<Rational> -/
 
 section QF
